@@ -598,6 +598,9 @@ static void run_c07(long cases) {
 
 int main(int argc, char** argv) {
     g_opts = parse_opts(argc, argv);
+#if LV_INTERPOSE
+    lv::ip().pollDelayMaxMs = (int)g_opts.num("poll-delay", 0);   // see live.h: loop threads come back to their pollers late
+#endif
     install_handlers();
     char tmpl[] = "wtmp-XXXXXX";   // inside the check's scratch directory (cwd)
     g_tmpdir = mkdtemp(tmpl);
@@ -606,6 +609,9 @@ int main(int argc, char** argv) {
     rmdir(g_tmpdir.c_str());
     g_distinct.flush();
     Json s; s.str("t", "sum").num("evaluations", g_evals);
+#if LV_INTERPOSE
+    if (lv::ip().pollDelays.load()) g_counts["poll_delays_injected"] = lv::ip().pollDelays.load();
+#endif
     Json c; for (auto& kv : g_counts) c.num(kv.first, kv.second);
     s.raw("counts", c.done());
     emit(s.done());
